@@ -192,7 +192,19 @@ def oracle_apply(it):
 def make_reservoir_case(rng, tier):
     """a stochastic run where flagged entries matter as sources: a whole cell (every species) or a whole species is flagged and
     well stocked, the rest starts almost empty - what the free entries gain comes out of the flagged ones"""
-    c = c07.make_case(rng, tier)
+    while True:
+        c = c07.make_case(rng, tier)
+        sp = c["desc"]["space"]
+        # mostly systems in which a reservoir has somewhere to leak to: two cells or more, connected
+        if rng.random() < 0.25 or (sysgen.ncells(c["desc"]) >= 2 and (sp["type"] == "grid" or sp["edges"])):
+            break
+    if rng.random() < 0.6:
+        # diffusion alone sets the pace: every species moves, the time step is tuned to the hops (with reactions around, the step is
+        # tuned to the fastest reaction and a reservoir may not lose a single molecule in the whole run)
+        c["desc"]["reactions"] = []
+        for s_ in c["desc"]["species"]:
+            s_["D"] = {"scalar": {"bare": rng.choice([0.5, 1.0, 2.0, 4.0])}}
+        trajgen.tune_time_step(c, target=0.08)
     n, ns = sysgen.ncells(c["desc"]), len(c["desc"]["species"])
     mode = rng.choice(["cell", "cell", "species", "cell_but_one", "mixed"])
     chs = [False] * (n * ns)
